@@ -94,8 +94,9 @@ class TornadoEventLoop(EventLoop):
         Call all the registered idle callbacks.
         """
         try:
-            for callback in list(self._idle_callbacks.values()):
-                callback()
+            for handle, callback in list(self._idle_callbacks.items()):
+                if handle in self._idle_callbacks:  # not removed by an earlier idle callback
+                    callback()
         finally:
             self._idle_asyncio_handle = None
 
